@@ -28,24 +28,31 @@ def pool():
             raise ValueError("seven is refused")
         return v
     return {
-        "int": (lambda: cc.IntField(min=0, max=10, validator=not_seven), 3, [11, "x", [1], None.__class__], 7),
-        "str": (lambda: cc.StringField(min_len=2, validator=lambda c, v: (_ for _ in ()).throw(ValueError("no")) if v == "nope" else v), "ab",
+        "int": (lambda **kw: cc.IntField(min=0, max=10, validator=not_seven, **kw), 3, [11, "x", [1], None.__class__], 7),
+        "str": (lambda **kw: cc.StringField(min_len=2, validator=lambda c, v: (_ for _ in ()).throw(ValueError("no")) if v == "nope" else v, **kw), "ab",
                 ["a", 5, ["ab"]], "nope"),
-        "list-int": (lambda: cc.ListField(cc.IntField(min=0, max=10), validator=too_long), [1, 2], [[1, 11], [1, "x"], "12", 5, [None, [1]]],
+        "list-int": (lambda **kw: cc.ListField(cc.IntField(min=0, max=10), validator=too_long, **kw), [1, 2], [[1, 11], [1, "x"], "12", 5, [None, [1]]],
                      [1, 2, 3, 4]),
-        "list-str": (lambda: cc.ListField(cc.StringField(transform_case="lower"), validator=too_long), ["a", "b"], [["a", 5], 7],
+        "list-str": (lambda **kw: cc.ListField(cc.StringField(transform_case="lower"), validator=too_long, **kw), ["a", "b"], [["a", 5], 7],
                      ["a", "b", "c", "d"]),
-        "list-untyped": (lambda: cc.ListField(validator=too_long), [1, "a"], [5, "str", {"a": 1}], [1, 2, 3, 4]),
-        "dict-typed": (lambda: cc.DictField(cc.StringField(), cc.IntField(min=0, max=10), validator=too_long), {"a": 1},
+        "list-untyped": (lambda **kw: cc.ListField(validator=too_long, **kw), [1, "a"], [5, "str", {"a": 1}], [1, 2, 3, 4]),
+        "dict-typed": (lambda **kw: cc.DictField(cc.StringField(), cc.IntField(min=0, max=10), validator=too_long, **kw), {"a": 1},
                        [{"a": 11}, {"a": "x"}, {5: 1}, [("a", 1)], "str"], {"a": 1, "b": 2, "c": 3, "d": 4}),
-        "dict-untyped": (lambda: cc.DictField(validator=too_long), {"a": [1]}, [5, [1, 2], "str"], {"a": 1, "b": 2, "c": 3, "d": 4}),
-        "bytes": (lambda: cc.BytesField(), b"ab", [5, [b"a"]], None),
-        "net": (lambda: cc.IPv4NetworkField(min_prefix_len=8), "10.0.0.0/8", ["10.0.0.0/4", "nonsense", 5], None),
+        "dict-untyped": (lambda **kw: cc.DictField(validator=too_long, **kw), {"a": [1]}, [5, [1, 2], "str"], {"a": 1, "b": 2, "c": 3, "d": 4}),
+        "bytes": (lambda **kw: cc.BytesField(**kw), b"ab", [5, [b"a"]], None),
+        "net": (lambda **kw: cc.IPv4NetworkField(min_prefix_len=8, **kw), "10.0.0.0/8", ["10.0.0.0/4", "nonsense", 5], None),
     }
 
 
 ROUTES = ["attr", "dotted", "load_tree", "ctor"]
 PLACES = ["root", "sub", "item"]
+# a configuration OBJECT built elsewhere, assigned where a sub-configuration / list item lives
+CFGOBJ_VARIANTS = ["required-unset", "schema-validator-fails", "valid", "foreign-schema"]
+CFGOBJ_PLACES = ["sub", "subsub", "item-set", "item-append", "item-insert", "list-assign", "ctor-sub"]
+# where the container that is modified in place came from: the user-defined marks must not move on a rejection either
+ORIGINS = ["default", "assigned", "loaded"]
+# single-element insertions and replacements only: C06 says nothing about a multi-element extend / update that fails half way
+INPLACE_OPS = ["setitem", "setitem-existing", "append", "insert", "update", "update-kw", "update-pairs", "setdefault", "ior", "extend", "iadd", "slice"]
 
 
 def generate(rng, tier):
@@ -61,6 +68,14 @@ def generate(rng, tier):
         for op in ("setitem", "append", "insert", "update", "setdefault"):
             for place in PLACES:
                 cases.append({"field": name, "vi": 0, "route": "inplace:" + op, "place": place, "src": "matrix"})
+    for variant in CFGOBJ_VARIANTS:
+        for place in CFGOBJ_PLACES:
+            cases.append({"field": "cfgobj", "vi": 0, "variant": variant, "route": "cfgobj", "place": place, "src": "matrix"})
+    for origin in ORIGINS:
+        for name in ("dict-typed", "dict-untyped", "list-int", "list-str"):
+            for op in INPLACE_OPS:
+                for place in PLACES:
+                    cases.append({"field": name, "vi": 0, "route": "inplace:" + op, "place": place, "origin": origin, "src": "matrix"})
     for _ in range(60 if tier == "quick" else 2000):
         name = rng.choice(names)
         _, _, rejected, refused = pool()[name]
@@ -74,7 +89,7 @@ def gcase(c):
 
 
 def _snap(cfg):
-    from cincoconfig import Config
+    from cincoconfig import Config, is_value_defined
     out = {}
     for k, v in cfg._data.items():
         if isinstance(v, Config):
@@ -86,23 +101,107 @@ def _snap(cfg):
         else:
             out[k] = ("val", copy.deepcopy(v), type(v).__name__)
     out["__defaults__"] = sorted(cfg._default_value_keys)
+    out["__defined__"] = sorted(k for k in cfg._fields if k in cfg._data and is_value_defined(cfg, k))
+    return out
+
+
+def _cfgobj(c, out):
+    """a configuration object built elsewhere is assigned where a sub-configuration or a list item lives"""
+    from cincoconfig import Schema, ListField, IntField, StringField
+
+    def leafy(s):
+        s.host = StringField(required=True)      # no default: a fresh configuration of this schema does not validate
+        s.port = IntField(default=5432, min=1, max=65535)
+
+    def refuse(cfg):
+        if cfg.port == 1234:
+            raise ValueError("port 1234 is refused by the schema's validator")
+    item = Schema()
+    leafy(item)
+    item.validator(refuse)
+    s = Schema()
+    s.mode = StringField(default="prod")
+    leafy(s.db)
+    leafy(s.db.deep)
+    s.db.validator(refuse)
+    s.db.deep.validator(refuse)
+    s.items = ListField(item)
+    foreign = Schema()
+    foreign.unrelated = IntField(default=1)
+    cfg = s()
+    cfg.db.host = "db1"
+    cfg.db.deep.host = "deep1"
+    cfg.items = [{"host": "i0"}, {"host": "i1", "port": 81}]
+    place, variant = c["place"], c["variant"]
+    sch = {"sub": s.db, "ctor-sub": s.db, "subsub": s.db.deep}.get(place, item)
+    other = (foreign if variant == "foreign-schema" else sch)()
+    if variant == "schema-validator-fails":
+        other.host = "h"
+        other.port = 1234
+    elif variant == "valid":
+        other.host = "h"
+        other.port = 99
+    elif variant == "required-unset":
+        other.port = 99
+    before = _snap(cfg)
+    held = {"sub": lambda: cfg.db, "ctor-sub": lambda: cfg.db, "subsub": lambda: cfg.db.deep}.get(place, lambda: cfg.items)
+    keep = held()
+    try:
+        if place == "sub":
+            cfg.db = other
+        elif place == "subsub":
+            cfg.db.deep = other
+        elif place == "item-set":
+            cfg.items[1] = other
+        elif place == "item-append":
+            cfg.items.append(other)
+        elif place == "item-insert":
+            cfg.items.insert(0, other)
+        elif place == "list-assign":
+            cfg.items = [{"host": "n0"}, other]
+        elif place == "ctor-sub":
+            s(db=other)
+        out["result"] = "accepted"
+    except ValueError as e:
+        out["result"] = "rejected"
+        out["exc"] = type(e).__name__
+    except Exception as e:  # noqa
+        out["result"] = "raised"
+        out["exc"] = type(e).__name__
+    after = _snap(cfg)
+    out["unchanged"] = before == after
+    now = held()
+    out["same_object"] = now is keep
+    if before != after:
+        out["diff"] = [k for k in before if before.get(k) != after.get(k)]
+    if out["result"] == "accepted" and place in ("sub", "subsub"):
+        out["linked"] = now is other and other._parent is (cfg if place == "sub" else cfg.db)
     return out
 
 
 def impl(c):
     from cincoconfig import Schema, ListField, IntField
+    out = {}
+    if c["field"] == "cfgobj":
+        try:
+            return _cfgobj(c, out)
+        except Exception as e:  # noqa
+            out["setup"] = "%s: %s" % (type(e).__name__, e)
+            return out
     mk, prior, rejected, refused = pool()[c["field"]]
     values = list(rejected) + ([refused] if refused is not None else [])
     bad = values[c["vi"]]
     if bad is type(None):
         bad = object()        # an arbitrary object
+    origin = c.get("origin", "assigned")
+    kw = {"default": (lambda: copy.deepcopy(prior))} if origin == "default" else {}
     item = Schema()
-    item.f = mk()
+    item.f = mk(**kw)
     item.other = IntField(default=1)
     s = Schema()
-    s.f = mk()
+    s.f = mk(**kw)
     s.other = IntField(default=1)
-    s.sub.f = mk()
+    s.sub.f = mk(**kw)
     s.sub.other = IntField(default=1)
     s.items = ListField(item)
     out = {"refused": refused is not None and c["vi"] == len(rejected)}
@@ -110,7 +209,11 @@ def impl(c):
         cfg = s()
         cfg.items = [{"other": 5}, {"other": 6}]
         tgt = {"root": cfg, "sub": cfg.sub, "item": cfg.items[1]}[c["place"]]
-        tgt.f = copy.deepcopy(prior)
+        if origin == "assigned":
+            tgt.f = copy.deepcopy(prior)
+        elif origin == "loaded":
+            tgt.load_tree({"f": copy.deepcopy(prior)})
+        out["prior_is_default"] = "f" in tgt._default_value_keys
         keep = tgt._data["f"]          # the stored object
         before = _snap(cfg)
         route = c["route"]
@@ -133,27 +236,48 @@ def impl(c):
                     s(items=[{"other": 1}, {"f": bad}])
             else:
                 op = route.split(":")[1]
-                cur = tgt._data["f"]
-                if isinstance(cur, dict):
-                    bad_item = {"dict-typed": 11}.get(c["field"], object())
-                    if op == "setitem":
+                cur = tgt.f                   # the way a caller reaches the container
+                if cur is not tgt._data["f"]:
+                    out["result"] = "n/a"     # the getter hands out something else than the stored container
+                elif isinstance(cur, dict):
+                    bad_item = {"dict-typed": 11}.get(c["field"], None)
+                    first = next(iter(cur))
+                    if bad_item is None:
+                        # an untyped dict accepts any entry: only the field-level validator (at most three entries) can refuse,
+                        # and it is not consulted for in-place changes
+                        out["result"] = "n/a"
+                    elif op == "setitem":
                         cur["zz"] = bad_item
+                    elif op == "setitem-existing":
+                        cur[first] = bad_item
                     elif op == "update":
-                        cur.update({"ok": 1, "zz": bad_item})
+                        cur.update({"zz": bad_item})
+                    elif op == "update-kw":
+                        cur.update(zz=bad_item)
+                    elif op == "update-pairs":
+                        cur.update([("zz", bad_item)])
                     elif op == "setdefault":
                         cur.setdefault("zz", bad_item)
+                    elif op == "ior":
+                        cur |= {"zz": bad_item}
                     else:
                         out["result"] = "n/a"
                 elif isinstance(cur, list):
                     bad_item = {"list-int": 11, "list-str": 5}.get(c["field"], None)
-                    if bad_item is None or op in ("update", "setdefault"):
+                    if bad_item is None or op in ("update", "update-kw", "update-pairs", "setdefault", "ior"):
                         out["result"] = "n/a"
-                    elif op == "setitem":
+                    elif op in ("setitem", "setitem-existing"):
                         cur[0] = bad_item
                     elif op == "append":
                         cur.append(bad_item)
                     elif op == "insert":
                         cur.insert(0, bad_item)
+                    elif op == "extend":
+                        cur.extend([bad_item])
+                    elif op == "iadd":
+                        cur += [bad_item]
+                    elif op == "slice":
+                        cur[0:1] = [bad_item]
                 else:
                     out["result"] = "n/a"
             out.setdefault("result", "accepted")
@@ -174,7 +298,10 @@ def impl(c):
 
 
 def oracle(c, obs):
-    what = "%s field at %s, route %s, value #%d" % (c["field"], c["place"], c["route"], c["vi"])
+    if c["field"] == "cfgobj":
+        what = "a %s configuration object assigned at %s" % (c["variant"], c["place"])
+    else:
+        what = "%s field (%s) at %s, route %s, value #%d" % (c["field"], c.get("origin", "assigned"), c["place"], c["route"], c["vi"])
     if "setup" in obs:
         return ["%s: setup failed: %s" % (what, obs["setup"])]
     bad = []
@@ -183,8 +310,13 @@ def oracle(c, obs):
             bad.append("%s: the rejected assignment changed the configuration (%s)" % (what, obs.get("diff")))
         elif not obs["same_object"]:
             bad.append("%s: the rejected assignment replaced the stored container object" % what)
+    if c["field"] == "cfgobj":
+        if obs["result"] == "accepted" and obs.get("linked") is False:
+            bad.append("%s: accepted, but the configuration does not hold the assigned object under its new parent" % what)
+        return bad
     direct = c["route"] in ("attr", "dotted") or (c["route"] == "ctor" and c["place"] == "root")
-    if obs["result"] == "accepted" and direct:
+    inplace = c["route"].startswith("inplace:") and obs["result"] != "n/a"
+    if obs["result"] == "accepted" and (direct or inplace):
         # every value of the pool is unacceptable for a DIRECT assignment (the load routes first convert the on-disk form:
         # a string is iterated by a typed list, a list of pairs becomes a dict -- accepted there, and that is not C06's business)
         bad.append("%s: an unacceptable value was accepted" % what)
